@@ -25,6 +25,9 @@ type FS struct {
 	Step func(kind, path string) bool
 	// Steps counts steps by kind.
 	Steps map[string]int
+	// Fail, when set, is asked before a file is created or replaced; a non-nil error (e.g.
+	// syscall.ENOSPC: the disk is full) makes that call fail with no effect.
+	Fail func(path string) error
 }
 
 func NewFS(s *simrt.Sim) *FS {
@@ -58,6 +61,12 @@ func (f *FS) WriteFile(name string, data []byte, perm os.FileMode) error {
 	if !f.Dirs[filepath.Dir(name)] {
 		f.step("open-enoent", name)
 		return notExist("open", name)
+	}
+	if f.Fail != nil {
+		if err := f.Fail(name); err != nil {
+			f.step("create-refused", name)
+			return &fs.PathError{Op: "open", Path: name, Err: err}
+		}
 	}
 	f.step("create", name)
 	f.Files[name] = []byte{}
